@@ -131,21 +131,6 @@ static int is_4byte_scalar(ProtobufCType t)
 	}
 }
 
-static int is_8byte_scalar(ProtobufCType t)
-{
-	switch (t) {
-	case PROTOBUF_C_TYPE_INT64:
-	case PROTOBUF_C_TYPE_SINT64:
-	case PROTOBUF_C_TYPE_SFIXED64:
-	case PROTOBUF_C_TYPE_UINT64:
-	case PROTOBUF_C_TYPE_FIXED64:
-	case PROTOBUF_C_TYPE_DOUBLE:
-		return 1;
-	default:
-		return 0;
-	}
-}
-
 /* raw bits of a scalar, zero-extended to 64 bits (4-byte types: low 32 bits only) */
 static uint64_t scalar_bits(ProtobufCType t, const void *p)
 {
